@@ -190,8 +190,8 @@ def combination(fs, domain, nominals, strong=False):
         parts = []
         for k in sorted(domain):
             seen = {f.get(k) for f in fs if k in f}
-            if strong and 2 * len(seen) > len(domain[k]):
-                continue    # the key names only the fields the failing rows pin to at most half of their classes
+            if strong and len(seen) != 1:
+                continue    # the key names only the fields the failing rows pin to ONE class (stable across tiers and seeds)
             if seen and len(seen) < len(domain[k]) and (len(fs) >= 30 or len(seen) == 1):
                 parts.append("%s=%s" % (k, "|".join(sorted(seen))))
         return ",".join(parts) or "any"
